@@ -339,8 +339,9 @@ type Runtime struct {
 	Log     []LogEntry
 	Seq     []string // resolver calls and thunk calls in the order they happen: "call|<path>|<Parent.field>", "force|<path>"
 	TypeLog []string
-	TypeCtx []interface{} // context tag seen by every ResolveType / IsTypeOf call (nil context = "<nil ctx>")
-	Mutate  bool          // resolvers mutate the args map they receive (C20 aliasing probe)
+	shared  map[string]interface{} // list values handed out more than once (same slice)
+	TypeCtx []interface{}          // context tag seen by every ResolveType / IsTypeOf call (nil context = "<nil ctx>")
+	Mutate  bool                   // resolvers mutate the args map they receive (C20 aliasing probe)
 }
 
 type ctxKey struct{}
@@ -356,7 +357,7 @@ func (rt *Runtime) noteTypeCtx(ctx context.Context) {
 }
 
 func NewRuntime(w *World, s *gq.SchemaDesc) *Runtime {
-	rt := &Runtime{W: w, S: s, objs: map[int]*wobj{}, byID: map[int]*WObj{}}
+	rt := &Runtime{W: w, S: s, objs: map[int]*wobj{}, byID: map[int]*WObj{}, shared: map[string]interface{}{}}
 	for _, o := range w.Objects {
 		rt.objs[o.ID] = &wobj{id: o.ID}
 		rt.byID[o.ID] = o
@@ -577,7 +578,23 @@ func (rt *Runtime) Hooks() gq.Hooks {
 						panic(42)
 					}
 				}
-				return rt.goValue(out["v"], e.Path, graphql.GetNamed(p.Info.ReturnType) == graphql.Type(graphql.Int)), nil
+				typedInts := graphql.GetNamed(p.Info.ReturnType) == graphql.Type(graphql.Int)
+				if l, isList := out["v"].([]interface{}); isList && !hasThunk(l) {
+					// the same Go slice every time this outcome is handed out (two aliases, repeated executions): the
+					// library must not complete a list in place in the resolver's own slice
+					key := fmt.Sprintf("%p|%v", out, typedInts)
+					rt.mu.Lock()
+					val, ok := rt.shared[key]
+					rt.mu.Unlock()
+					if !ok {
+						val = rt.goValue(l, e.Path, typedInts)
+						rt.mu.Lock()
+						rt.shared[key] = val
+						rt.mu.Unlock()
+					}
+					return val, nil
+				}
+				return rt.goValue(out["v"], e.Path, typedInts), nil
 			}
 		},
 		ResolveType: func(abstract string, objects map[string]*graphql.Object) graphql.ResolveTypeFn {
